@@ -791,6 +791,8 @@ func errorDiscipline(r *Run, rule string, fn *Func) {
 				switch {
 				case u.Kind == "direct-return" || u.Kind == "nested" || u.Kind == "cond":
 				case u.Verdict == "returned" || u.Verdict == "nil":
+				case u.Verdict == "nonnil" && strings.Contains(LostAfterNonNil(fl, p, u), "assigned again"):
+					problem = LostAfterNonNil(fl, p, u)
 				case u.Verdict == "nonnil":
 					if p.Exit == ExitReturn {
 						ri := FirstAfter(p, u.At, func(x Event) bool { return x.Kind == EvReturn && !x.Deferred })
@@ -837,7 +839,7 @@ func errorDiscipline(r *Run, rule string, fn *Func) {
 	r.Funcs[fn.Key] = true
 	if paths, ok := fl.Paths(); ok {
 		r.Paths += len(paths)
-		check(fl, paths)
+		check(fl, append(append([]Path{}, paths...), fl.Truncated()...))
 	} else {
 		r.Undecided(rule, "paths:"+fn.Key, fn.Decl.Pos(), "too many paths")
 	}
@@ -1046,7 +1048,7 @@ func rulesC15(r *Run) {
 	for _, k := range []string{sqlKey("reader.Search"), sqlKey("reader.List")} {
 		ruleStreamClosed(r, "R3", k)
 	}
-	r.Expect("R3", 4)
+	r.Expect("R3", 6)
 
 	r.Kind("R4", "K8")
 	ruleListQuery(r, "R4", m)
@@ -1054,6 +1056,12 @@ func rulesC15(r *Run) {
 
 	r.Kind("R5", "K7")
 	rulesCosmosSearch(r, "R5")
+
+	// R6: only plans whose Create succeeded exist: the create transaction watches the error the failing calls assign
+	r.Kind("R6", "K11+K3")
+	ruleTransactionScope(r, "R6", sqlKey("commitPlan"))
+	ruleCreateUnique(r, "R6", m)
+	r.Expect("R6", 3)
 }
 
 func ruleConstantPredicates(r *Run, rule string, m *sqliteModel) {
@@ -1238,6 +1246,27 @@ func ruleStreamClosed(r *Run, rule, key string) {
 		}
 	}
 	r.Check(rule, short+":connection-owned-by-producer", lit.Pos(), bad == "", "%s", orOK(bad, "the producer releases the connection; the spawner does not"))
+	// a connection taken on a path that returns before the producer is submitted must be given back
+	leak := ""
+	for i := range paths {
+		p := &paths[i]
+		if p.Exit != ExitReturn || pathSubmits(p) {
+			continue
+		}
+		taken, put := false, false
+		for ci, e := range p.Ev {
+			if e.Kind == EvCall && strings.HasSuffix(CalleeKey(e), "sqlitex.Pool.Take") && UseOfResult(fl, p, ci).Verdict == "nil" {
+				taken = true
+			}
+			if e.Kind == EvCall && strings.HasSuffix(CalleeKey(e), "sqlitex.Pool.Put") {
+				put = true
+			}
+		}
+		if taken && !put && leak == "" {
+			leak = short + " returns early (guard " + ExitGuardKey(fl, p) + ") with a pooled connection it took and never gives back: the pool is exhausted and every later call blocks forever"
+		}
+	}
+	r.Check(rule, short+":no-connection-leak-on-early-return", fn.Decl.Pos(), leak == "", "%s", orOK(leak, "every early return gives the connection back"))
 }
 
 func pathSubmits(p *Path) bool {
